@@ -1,9 +1,11 @@
-use crate::solvers::common::{DisplayValue, LpSolution, SolverError, format_float};
+use crate::solvers::common::{
+    DisplayValue, LpSolution, SolutionStatus, SolverError, format_float,
+};
 use crate::transformers::LinearModel;
 use crate::{
     Assignment, Comparison, OptimizationType, VariableType, make_constraints_map_from_assignment,
 };
-use microlp::{ComparisonOp, Error, OptimizationDirection, Problem, SolveOptions};
+use microlp::{ComparisonOp, Error, OptimizationDirection, Problem, SolveOptions, Status};
 use serde::{Deserialize, Serialize};
 use std::fmt::{Display, Formatter};
 use std::time::Duration;
@@ -179,6 +181,15 @@ pub fn solve_milp_lp_problem_with(
 
     match problem.solve_with(solve_options) {
         Ok(s) => {
+            // A limit (time) can stop the search early: only a finished search is
+            // `Optimal`; an unfinished one with an incumbent is merely `Feasible`;
+            // without an incumbent the values are the search's working point, not a
+            // solution, so the call reports an error instead.
+            let status = match s.status() {
+                Status::Optimal => SolutionStatus::Optimal,
+                Status::Feasible => SolutionStatus::Feasible,
+                Status::Interrupted => return Err(SolverError::LimitReached),
+            };
             let assignment = microlp_vars
                 .iter()
                 .zip(variables)
@@ -204,7 +215,8 @@ pub fn solve_milp_lp_problem_with(
                 assignment,
                 s.objective() + lp.objective_offset(),
                 constraints,
-            ))
+            )
+            .with_status(status))
         }
         Err(e) => Err(match e {
             Error::InternalError(s) => SolverError::Other(s),
